@@ -610,12 +610,13 @@ func init() {
 	Register("C15", func(r *run.Run) {
 		r.Rule = "bounded exhaustive enumeration of script lists / feature switches / languages, of generator fonts x all short strings, of kern tables and of ligature-character subsets; reference pipeline built from the reference shaper and specification readers"
 		r.Assume = []string{"lookup selection inside the layout comparison uses the library's FindLookups (checked separately)", "determinism across calls: 4 repetitions inside C15.findlookups, and every map iteration order of the seam's alphabet in C15.map-order*"}
-		c15FindLookups(r)
-		c15Layout(r)
+		// cheap parts first; the layout comparison on all strings is the largest and comes last
 		c15CmapSelection(r)
-		c15Kern(r)
 		c15Ligatures(r)
+		c15FindLookups(r)
+		c15Kern(r)
 		c15MapOrderFind(r)
 		c15MapOrder(r)
+		c15Layout(r)
 	})
 }
